@@ -8,6 +8,10 @@ ROOT = os.path.dirname(os.path.dirname(os.path.abspath(__file__)))
 
 # id -> (engine, category, technique, text, note, design_ref)
 CHECKS = {
+    "C05": dict(engine="enum", category="exploration", design_ref="DESIGN.md section 7 C05",
+        technique="bounded-exhaustive enumeration of inputs x layer subsets x containers x fill orders against a reference derived from packet decoding observed through a wrapper PacketBuilder; all ordered pairs of seeds for stale state",
+        text="For every input of the deviation<=1 neighbourhoods of the Ethernet/IPv4/IPv6 fixture seeds: DecodingLayerParser over a 12-member universe (Ethernet, Dot1Q, ARP, IPv4, IPv6, TCP, UDP, ICMPv4, ICMPv6, DNS, Payload, Fragment) in the map, sparse, array and a custom slice container, filled by Put and by AddDecodingLayer, every 11-member subset, IgnoreUnsupported on/off, decoded pre-filled; for unmodified seeds all 4096 subsets and the other first layers. Reference: NewPacket(DecodeStreamsAsDatagrams) observed through a wrapper builder that records which decoder call failed and where SetTruncated was called; expected = leading run of packet layers inside the set. Compared: reported type list, Truncated, no spurious decode error, and every exported field plus method results (payload, next type, flows, rendering) of each reported preallocated object against the packet's layer. Stale state: every ordered pair of unmodified seeds decoded into the same objects vs fresh objects.",
+        note="Trusted: reflection comparison of exported fields and method results; unexported scratch storage is not compared. A preallocated object of a type that occurs twice in the run holds the last occurrence only."),
     "C14": dict(engine="enum", category="fault_enumeration", design_ref="DESIGN.md section 7 C14",
         technique="exhaustive crash-point enumeration: every byte-offset truncation of every file produced from a systematically enumerated family of packet sequences / interface / option values, plus whole-file round trips through every read call and a differential read with libpcap",
         text="About 2000 [thorough more] capture files are produced with the real writers (classic pcap micro/nano: all 1- and 2-packet [3-packet] sequences over 8 data lengths x 3 wire-length surpluses x 5 timestamps incl. 2^31-1 and 2^32-1 s; pcapng: every interface and section string at lengths 0,1,3,4,5, snap lengths, if_tsoffset, the full product of comment/hash/verdict lists incl. empty values and lengths not a multiple of 4, 1-3 interfaces with equal or mixed link types). Each file is read back with every read call and must return the same packets, lengths, timestamps, interfaces, options; for EVERY byte offset the prefix must yield exactly the packets whose record lies wholly inside it, unaltered, then io.EOF/io.ErrUnexpectedEOF; libpcap must read the same packets from the files it accepts.",
